@@ -424,6 +424,27 @@ def requestSelect (cfg : Cfg) (q : Question) : ReqSel :=
     else .to (.up u)
   | _ => .err .routeFail
 
+/-- `daedns.Router.selectUpstream` (dae's own look-ups of node / subscription hosts): the request
+matcher on `CanonicalName(host)`; `asis` AND `reject` both mean "hand the look-up to the base
+resolver" (`errPassthroughToBaseResolver`), an index is the configured upstream. -/
+inductive DaeSel where
+  | pass
+  | up (k : Nat)
+  | err
+deriving DecidableEq, Repr, Inhabited
+
+/-- `dns.CanonicalName`: lower case, exactly one dot appended when the name is not fully qualified. -/
+def canonName (s : List Char) : List Char :=
+  lowerStr (if s.getLast? == some '.' then s else s ++ ['.'])
+
+def daednsSelect (cfg : Cfg) (host : List Char) (qtype : Nat) (rx : List String) : DaeSel :=
+  match requestMatch cfg.req ⟨canonName host, qtype, [], 0, rx⟩ with
+  | .hit u =>
+    if u == 0xFD || u == 0xFC then .pass
+    else if u ≥ cfg.nUp then .err
+    else .up u
+  | _ => .err
+
 inductive Rec where
   | a (addr : Nat)       -- 32-bit
   | aaaa (addr : Nat)    -- 128-bit
@@ -508,10 +529,6 @@ inductive Scope where
   | asis (dst : Nat)
   | up (k : Nat)
 deriving DecidableEq, Repr, Inhabited
-
-/-- `dns.CanonicalName`: lower case, exactly one dot appended when the name is not fully qualified. -/
-def canonName (s : List Char) : List Char :=
-  lowerStr (if s.getLast? == some '.' then s else s ++ ['.'])
 
 structure CacheKey where
   name : List Char    -- canonical
